@@ -35,6 +35,24 @@ def annotation_kind(text: str) -> Optional[str]:
     return None
 
 
+def _spec_fits(kind: Optional[str], spec: Optional[str]) -> bool:
+    """Is format(x, spec) total for every x of this kind?  Decided for the standard presentation types only."""
+    if spec is None or kind is None:
+        return False
+    if spec == "":
+        return True
+    ty = spec[-1]
+    if ty in "bcdoxXn":
+        return kind in ("int", "bool", "index")
+    if ty in "eEfFgG%":
+        return kind in ("int", "bool", "float", "index")
+    if ty == "s":
+        return kind == "str"
+    if ty.isdigit() or ty in "<>^=+- ,_":
+        return kind in ("int", "bool", "float", "str", "index")
+    return False
+
+
 class ExprMixin:
     # -- these come from InterpCore / CallMixin
     prog: Any
@@ -166,7 +184,14 @@ class ExprMixin:
                 else:
                     if conv == "r" or (conv == "" and not isinstance(v, (Const, StrV))):
                         self.emit("format", node, value=v, conv=conv or "s")
+                    self.render_partial(v, p)
                     pieces.append((v, conv))
+                if p.format_spec is not None and conv == "":
+                    # `{x:d}`: format(x, spec) raises ValueError / TypeError when the presentation type does not fit x's kind
+                    spec = p.format_spec.values[0].value if (isinstance(p.format_spec, ast.JoinedStr) and len(p.format_spec.values) == 1
+                                                             and isinstance(p.format_spec.values[0], ast.Constant)) else None
+                    if not (isinstance(v, Const) and spec is not None and _spec_fits(type(v.value).__name__, spec)):
+                        self.partial("format-spec", (ValueError, TypeError), p, operands=(v,), spec=spec)
         return StrV(pieces)
 
     def e_Starred(self, node: ast.Starred, fr: Frame) -> V:
@@ -1011,6 +1036,12 @@ class ExprMixin:
             lst.items.append(Spread(rhs))
 
     # ------------------------------------------------------------------ partial operations
+    def render_partial(self, v: V, node: Any) -> None:
+        """str()/repr()/format() of a value: total except for ints beyond sys.get_int_max_str_digits() (CPython >= 3.11
+        raises ValueError), alone or inside a container.  Only analyses that opt in (`int_str_limit`) see it."""
+        if getattr(self, "int_str_limit", False) and not isinstance(v, (Const, StrV)):
+            self.partial("render", (ValueError,), node, operands=(v,))
+
     def partial(self, op: str, excs: Tuple[Any, ...], node: Any, definite: bool = False, **data: Any) -> None:
         """An operation that may raise.  Fork only if some enclosing handler could catch it."""
         ev = self.emit("partial", node, op=op, excs=excs, definite=definite, **data)
